@@ -48,4 +48,74 @@ __CPROVER_ensures(VR_POST(vl_exp_walk(info, 0, SPEC_VERR_INT(10)), result))
 __CPROVER_ensures(VL_COMPLETE(info, result))
 __CPROVER_assigns(result != NULL: *result; g_vl_calls, g_vl_prev, g_vl_fail, g_vl_na, g_vl_il_len[0], g_vl_il_len[1], g_vl_iv[0].value, g_vl_iv[1].value, g_vl_shape_known, g_vl_shape);
 #endif
+
+#if defined(VL_MODE_IDX)
+static int rfc3161_verifyChainIndex(KSI_CTX *ctx, const KSI_Signature *sig)
+__CPROVER_ensures(__CPROVER_return_value == g_vl_rfc_ret)
+__CPROVER_assigns();
+
+/* INT-12: for every adjacent pair the earlier chain's index list is the later one's plus one element and agrees with it
+ * on all common positions (lengths checked by the chain monitor, elements pairwise by the index-list monitor) */
+int KSI_VerificationRule_AggregationHashChainIndexContinuation(KSI_VerificationContext *info, KSI_RuleVerificationResult *result)
+__CPROVER_requires(VR_PRE(info, result) && VL_PRE && g_vi_calls == 0 && !g_vi_prev_fetched)
+__CPROVER_ensures(VR_POST(vl_exp_walk(info, 1, SPEC_VERR_INT(12)), result))
+__CPROVER_ensures(VL_COMPLETE(info, result))
+__CPROVER_ensures(IMPLIES(result != NULL && __CPROVER_return_value == KSI_OK && result->resultCode == KSI_VER_RES_OK && g_vl_calls >= 2,
+		!g_vi_prev_fetched && g_vi_calls == (g_vl_calls % 2 == 1 ? g_vl_il_len[0] : g_vl_il_len[1])))
+__CPROVER_assigns(result != NULL: *result; g_vl_calls, g_vl_prev, g_vl_fail, g_vl_il_len[0], g_vl_il_len[1], g_vl_iv[0].value, g_vl_iv[1].value, g_vi_calls, g_vi_prev_fetched);
+#endif
+
+#if defined(VL_MODE_CONS)
+/* ASSUMED (projection of the memo contract enforced by C03.memo, seen from a caller that owns no other reference):
+ * the value of chain k for its start level is a NEW hash identity VL_OUT(k) with one reference for the caller and the
+ * end level, or an error with the outputs untouched.  Preconditions = what the property demands of the caller:
+ * called once per chain right after its fetch, not after a mismatch, start level = end level of the previous chain
+ * (0 for the first), and the root of chain k-2 already released (else it leaks). */
+#define VL_OUT_REF(k) g_vr_h_ref[VR_H_NEW1 + (int)((k) % 2)]
+int KSI_AggregationHashChain_aggregate(KSI_AggregationHashChain *aggr, int startLevel, int *endLevel, KSI_DataHash **root)
+__CPROVER_requires(aggr != NULL && aggr == g_vl_prev && endLevel != NULL && root != NULL)
+__CPROVER_requires(!g_vl_fail && !g_vl_na && g_vl_aggs + 1 == g_vl_calls)
+__CPROVER_requires(startLevel == g_vl_level)
+__CPROVER_requires(g_vl_aggs % 2 == 0 ? g_vr_h_ref[VR_H_NEW1] == 0 : g_vr_h_ref[VR_H_NEW2] == 0)
+__CPROVER_ensures(IMPLIES(__CPROVER_return_value == KSI_OK, g_vl_aggs == __CPROVER_old(g_vl_aggs) + 1 && !g_vl_na &&
+		*endLevel == g_vl_level && 0 <= g_vl_level && g_vl_level <= 0xff &&
+		(__CPROVER_old(g_vl_aggs) % 2 == 0
+			? (*root == &g_vr_h[VR_H_NEW1] && g_vr_h_ref[VR_H_NEW1] == 1 && g_vr_h_ref[VR_H_NEW2] == __CPROVER_old(g_vr_h_ref[VR_H_NEW2]))
+			: (*root == &g_vr_h[VR_H_NEW2] && g_vr_h_ref[VR_H_NEW2] == 1 && g_vr_h_ref[VR_H_NEW1] == __CPROVER_old(g_vr_h_ref[VR_H_NEW1])))))
+__CPROVER_ensures(IMPLIES(__CPROVER_return_value != KSI_OK, g_vl_na && g_vl_aggs == __CPROVER_old(g_vl_aggs) && g_vl_level == __CPROVER_old(g_vl_level) &&
+		*endLevel == __CPROVER_old(*endLevel) && *root == __CPROVER_old(*root) &&
+		g_vr_h_ref[VR_H_NEW1] == __CPROVER_old(g_vr_h_ref[VR_H_NEW1]) && g_vr_h_ref[VR_H_NEW2] == __CPROVER_old(g_vr_h_ref[VR_H_NEW2])))
+/* the identity of the other root is not touched */
+__CPROVER_ensures(__CPROVER_old(g_vl_aggs) % 2 == 0
+		? (g_vr_h_alg[VR_H_NEW2] == __CPROVER_old(g_vr_h_alg[VR_H_NEW2]) && g_vr_h_dig[VR_H_NEW2] == __CPROVER_old(g_vr_h_dig[VR_H_NEW2]))
+		: (g_vr_h_alg[VR_H_NEW1] == __CPROVER_old(g_vr_h_alg[VR_H_NEW1]) && g_vr_h_dig[VR_H_NEW1] == __CPROVER_old(g_vr_h_dig[VR_H_NEW1])))
+__CPROVER_assigns(*endLevel, *root, g_vl_level, g_vl_na, g_vl_aggs, g_vr_h_ref[VR_H_NEW1], g_vr_h_ref[VR_H_NEW2],
+		g_vr_h_alg[VR_H_NEW1], g_vr_h_alg[VR_H_NEW2], g_vr_h_dig[VR_H_NEW1], g_vr_h_dig[VR_H_NEW2],
+		aggr->outputLevel, aggr->inputLevel);         /* + aggr->outputHash in the real function: the chain's memo cache (not modelled: never read by the rule) */
+
+static spec_verdict vl_exp_cons(const KSI_VerificationContext *info) {
+	if (!VR_INFO_OK(info) || info->tempData == NULL) return SPEC_VNA;
+	return vl_exp_walk(info, 0, SPEC_VERR_INT(1));
+}
+#define VL_IS_OK(result) ((result) != NULL && __CPROVER_return_value == KSI_OK && (result)->resultCode == KSI_VER_RES_OK)
+/* INT-01.  Documented tempData field: aggregationOutputHash := root of the last chain (the old value is released).
+ * Any other outcome leaves tempData alone and holds no reference on a computed root (no leak, no double free). */
+int KSI_VerificationRule_AggregationHashChainConsistency(KSI_VerificationContext *info, KSI_RuleVerificationResult *result)
+__CPROVER_requires(VR_PRE(info, result) && VL_PRE && g_vl_level == 0 && g_vl_aggs == 0)
+__CPROVER_requires(g_vr_h_ref[VR_H_NEW1] == 0 && g_vr_h_ref[VR_H_NEW2] == 0 && g_vr_h_ref[VR_H_IN0] == 1 && g_vr_h_ref[VR_H_AGGOUT] == 1)
+__CPROVER_requires(g_vr_temp.aggregationOutputHash == NULL || g_vr_temp.aggregationOutputHash == &g_vr_h[VR_H_AGGOUT])
+__CPROVER_ensures(VR_POST(vl_exp_cons(info), result))
+__CPROVER_ensures(VL_COMPLETE(info, result))
+__CPROVER_ensures(IMPLIES(VL_IS_OK(result), g_vl_aggs == g_vl_calls &&
+		g_vr_h_ref[VR_H_AGGOUT] == (__CPROVER_old(g_vr_temp.aggregationOutputHash) != NULL ? 0 : 1) &&
+		(g_vl_calls == 0 ? (g_vr_temp.aggregationOutputHash == NULL && g_vr_h_ref[VR_H_NEW1] == 0 && g_vr_h_ref[VR_H_NEW2] == 0) :
+		 g_vl_calls % 2 == 1 ? (g_vr_temp.aggregationOutputHash == &g_vr_h[VR_H_NEW1] && g_vr_h_ref[VR_H_NEW1] == 1 && g_vr_h_ref[VR_H_NEW2] == 0)
+		                     : (g_vr_temp.aggregationOutputHash == &g_vr_h[VR_H_NEW2] && g_vr_h_ref[VR_H_NEW2] == 1 && g_vr_h_ref[VR_H_NEW1] == 0))))
+__CPROVER_ensures(IMPLIES(!VL_IS_OK(result), g_vr_temp.aggregationOutputHash == __CPROVER_old(g_vr_temp.aggregationOutputHash) &&
+		g_vr_h_ref[VR_H_AGGOUT] == 1 && g_vr_h_ref[VR_H_NEW1] == 0 && g_vr_h_ref[VR_H_NEW2] == 0))
+__CPROVER_assigns(result != NULL: *result; g_vl_calls, g_vl_prev, g_vl_fail, g_vl_na, g_vl_level, g_vl_aggs, g_vr_temp.aggregationOutputHash,
+		g_vr_h_ref[VR_H_NEW1], g_vr_h_ref[VR_H_NEW2], g_vr_h_ref[VR_H_AGGOUT], g_vr_h_alg[VR_H_IN0], g_vr_h_dig[VR_H_IN0],
+		g_vr_h_alg[VR_H_NEW1], g_vr_h_alg[VR_H_NEW2], g_vr_h_dig[VR_H_NEW1], g_vr_h_dig[VR_H_NEW2],
+		g_vl_c[0].outputLevel, g_vl_c[0].inputLevel, g_vl_c[1].outputLevel, g_vl_c[1].inputLevel);
+#endif
 #endif
